@@ -1,5 +1,6 @@
 CONSTANTS
   Alias = FALSE
+  ExplicitPrefixed = FALSE
   MaxLen = 4
   ExportLen = 4
 INIT Init
